@@ -192,10 +192,23 @@ theorem norm_irrelevant_label (puny : Str → Str) (hpl : PunyLaws puny) (o : Op
   simp only [List.map_append, List.map_cons] at e1 e2
   rw [e1, e2, keepLabels_insert _ _ _ _ (by simpa using h2) hlab]
 
-/-- the documented labels are irrelevant labels, in any letter case -/
+/-- table obligation: `0`–`9` are among the digits `\d` matches (the regenerated class) -/
+theorem ascii_digits_in_class : (48, 57) ∈ Gen.Normalize.reDigitRanges := by decide
+
+theorem isReDigit_of_ascii {d : Char} (h : isAsciiDigit d = true) : isReDigit d = true := by
+  unfold isReDigit
+  rw [List.any_eq_true]
+  refine ⟨(48, 57), ascii_digits_in_class, ?_⟩
+  have h0 : ('0' : Char).toNat = 48 := by decide
+  have h9 : ('9' : Char).toNat = 57 := by decide
+  simp only [isAsciiDigit, Bool.decide_and, Bool.and_eq_true, decide_eq_true_eq, char_le_iff, h0, h9] at h
+  simp [h.1, h.2]
+
+/-- the documented labels are irrelevant labels, in any letter case (`www<digit>`: every digit the
+pattern's `\d` matches — `0`–`9` by `isReDigit_of_ascii`, and the other Unicode decimal digits) -/
 theorem documented_labels (puny : Str → Str) (amp : Bool) (lab : Str)
     (h : lower lab = "www".toList ∨ lower lab = "m".toList ∨ lower lab = "mobile".toList ∨
-      (∃ d, isAsciiDigit d = true ∧ lower lab = "www".toList ++ [d]) ∨
+      (∃ d, isReDigit d = true ∧ lower lab = "www".toList ++ [d]) ∨
       (amp = true ∧ lower lab = "amp".toList)) :
     isIrrLabel amp (canonLabel puny lab) = true := by
   have hx : lower (lab.take 4) ≠ "xn--".toList := by
